@@ -3,7 +3,7 @@
 # given checks (quick) against THAT checkout (VERIF_REPO), undo, and restore the Gen files from /repo.
 # (/repo itself is never touched, so concurrent work reading /repo is not disturbed.)
 WT=$1; P=$2; shift; shift
-git -C $WT checkout -q -- . ; git -C $WT apply $P || { echo APPLY-FAILED; exit 2; }
+git -C $WT checkout -q -- . ; git -C $WT clean -fdq -e target; git -C $WT checkout -q --detach $(git -C /repo rev-parse HEAD); git -C $WT apply $P || { echo APPLY-FAILED; exit 2; }
 for c in "$@"; do
   out=$(cd /verif && VERIF_REPO=$WT timeout 2400 ./check $c --tier quick 2>&1); rc=$?
   echo "== $c rc=$rc"; echo "$out" | grep -E "^VIOLATION|OK:" | head -3; echo "$out" | grep -A1 "^VIOLATION" | grep -v "^VIOLATION\|^--" | head -2 | cut -c1-330
